@@ -3,6 +3,7 @@ package historyprunner
 
 import (
 	"context"
+	"time"
 
 	"github.com/NethermindEth/juno/core"
 	"github.com/NethermindEth/juno/core/felt"
@@ -49,16 +50,34 @@ func vxMessageHash(l *core.L1HandlerTransaction) []byte {
 	return out
 }
 
+// vxBlockTime: two hours old below youngFrom, ten minutes old from there on.
+func vxBlockTime(now uint64, b, youngFrom int) uint64 {
+	if b < youngFrom {
+		return now - 7200 + uint64(b)
+	}
+	return now - 600 + uint64(b)
+}
+
 func vxNoTicker(context.Context, any, func()) context.CancelFunc { return func() {} }
 
 func VxC18HistoryPrunerMigration() {
-	vx.Bound("chain of 3 blocks with 1..2 transactions each (invoke or L1 handler, any arrangement), one storage-history entry per block, L1 head 0..2 below or at the chain head, retained blocks 0..3 (oldest kept block 0..2; nothing is pruned when the L1 head lies inside the retention window); cancellation at the k-th database read of the first run for k in 1..24 (thorough) / a sample of k (quick), or never; resumed until completion (<= 4 runs); one worker goroutine per stage in the engine")
+	vx.Bound("chain of 3 blocks with 1..2 transactions each (invoke or L1 handler, any arrangement), one storage-history entry per block, L1 head 0..2 below or at the chain head, retained blocks 0..3 (oldest kept block 0..2; nothing is pruned when the L1 head lies inside the retention window); minimum age off or one hour with the blocks from a chosen height on younger than that; cancellation at the k-th database read of the first run for k in 1..24 (thorough) / a sample of k (quick), or never; resumed until completion (<= 4 runs); one worker goroutine per stage in the engine")
 	if vx.InEngine() {
 		vx.Stub("github.com/NethermindEth/juno/migration/progresslogger.CallEveryInterval", vxNoTicker)
 		vx.Stub("(*github.com/NethermindEth/juno/core.L1HandlerTransaction).MessageHash", vxMessageHash)
 	}
 	const n = 3
 	d := memory.New()
+	// minimum age: off, or one hour with the blocks from `youngFrom` on younger than that (timestamps are
+	// taken relative to the clock the migration reads; block timestamps never decrease)
+	minAge := time.Duration(0)
+	youngFrom := n
+	now := uint64(time.Now().Unix())
+	if vx.Choice("min-age", 2) == 1 {
+		minAge = time.Hour
+		youngFrom = vx.Choice("young-from", n+1)
+		vx.Cover("minimum-age-configured")
+	}
 	addr := felt.NewFromUint64[felt.Felt](0xA)
 	slot := felt.NewFromUint64[felt.Felt](0x5)
 	hashes := make([]*felt.Felt, n)
@@ -66,11 +85,17 @@ func VxC18HistoryPrunerMigration() {
 	for b := 0; b < n; b++ {
 		num := uint64(b)
 		hashes[b] = felt.NewFromUint64[felt.Felt](0x4000 + num)
-		ntx := 1 + vx.Choice("ntx", 2)
+		// quick tier: the minimum-age arm keeps the block contents fixed (one transaction per block,
+		// L1 handler in block 1), the content dimension is explored with the age setting off
+		wide := minAge == 0 || vx.Thorough()
+		ntx := 1
+		if wide {
+			ntx = 1 + vx.Choice("ntx", 2)
+		}
 		var rs []*core.TransactionReceipt
 		for i := 0; i < ntx; i++ {
 			h := felt.NewFromUint64[felt.Felt](9000 + 10*num + uint64(i))
-			if vx.Choice("l1", 2) == 1 {
+			if (wide && vx.Choice("l1", 2) == 1) || (!wide && b == 1) {
 				txs[b] = append(txs[b], &core.L1HandlerTransaction{
 					TransactionHash: h, ContractAddress: addr, EntryPointSelector: slot, Nonce: felt.NewFromUint64[felt.Felt](num),
 					CallData: []felt.Felt{felt.FromUint64[felt.Felt](uint64(i + 1))}, Version: new(core.TransactionVersion),
@@ -82,7 +107,7 @@ func VxC18HistoryPrunerMigration() {
 		}
 		diff := core.EmptyStateDiff()
 		diff.StorageDiffs[*addr] = map[felt.Felt]*felt.Felt{*slot: felt.NewFromUint64[felt.Felt](100 + num)}
-		if core.WriteBlockHeader(d, &core.Header{Number: num, Hash: hashes[b], ProtocolVersion: "0.13.2"}) != nil ||
+		if core.WriteBlockHeader(d, &core.Header{Number: num, Hash: hashes[b], ProtocolVersion: "0.13.2", Timestamp: vxBlockTime(now, b, youngFrom)}) != nil ||
 			core.WriteStateUpdateByBlockNum(d, num, &core.StateUpdate{BlockHash: hashes[b], StateDiff: &diff}) != nil ||
 			core.WriteDeprecatedContractStorageHistory(d, addr, slot, felt.NewFromUint64[felt.Felt](99+num), num) != nil ||
 			core.WriteBlockCommitment(d, num, &core.BlockCommitments{}) != nil ||
@@ -103,17 +128,28 @@ func VxC18HistoryPrunerMigration() {
 	} else {
 		vx.Cover("l1-head-inside-the-retention-window")
 	}
+	// blocks younger than the minimum age stay as well: the floor is the lower of the two (the age search
+	// only looks at blocks up to the L1 head; if none there is young enough the count floor stands)
+	if minAge > 0 && l1 >= retained && uint64(youngFrom) <= l1 && uint64(youngFrom) < oldest {
+		oldest = uint64(youngFrom)
+		vx.Cover("minimum-age-lowers-the-floor")
+		if oldest == 0 {
+			vx.Cover("minimum-age-reaches-genesis")
+		}
+	}
 
 	cancelAt := 0
 	if vx.Thorough() {
 		cancelAt = vx.Choice("cancel-at", 25)
-	} else {
+	} else if minAge == 0 {
 		cancelAt = []int{0, 3, 7, 11, 16}[vx.Choice("cancel-at", 5)]
+	} else {
+		cancelAt = []int{0, 7}[vx.Choice("cancel-at", 2)]
 	}
 	var state []byte
 	done := false
 	for run := 0; run < 4 && !done; run++ {
-		m := New(retained, 0)
+		m := New(retained, minAge)
 		vx.Assert(m.Before(state) == nil, "before-accepts-own-intermediate-state")
 		ctx, cancel := context.WithCancel(context.Background())
 		var store db.KeyValueStore = d
